@@ -129,7 +129,7 @@ func soundFor(line string, key ssh.PublicKey) (declared, exact bool) {
 func TestC38(t *testing.T) {
 	m := mon.New(t, "C38")
 	defer m.Done()
-	m.Rule("pool per process = Go-made public keys (ed25519, ecdsa 256/384/521 from seeded scalars, RSA moduli of 1024..16384 bits with e in {3,5,17,257,65537,2^24-1}, DSA-shaped numbers), hand-built sk-ecdsa/sk-ed25519 blobs, ssh-keygen-made keys (ed25519, ecdsa 256/384/521, rsa 1024/2048/3072[/4096], dsa) and certificates over them issued by ssh.Certificate.SignCert and by ssh-keygen -s (user/host, options, 3 CA types). key case = one pool key through ParsePublicKey/Marshal/MarshalAuthorizedKey/ParseAuthorizedKey/Fingerprint*, compared with an independent encoder/decoder (h/ref/sshkeyfmt), ssh-keygen -l (-E sha256|md5) reading the package's output, and ssh-keygen -e -m PKCS8 (numbers via OpenSSL's DER). file case = authorized_keys file of 1..10 generated lines (plain / options with quotes, escaped quotes, commas, blanks, '=' / type mismatch / blank, comment, one token / unterminated quote / bad or truncated base64 / unknown type / single-edit mutants and oddities), outcome known by construction and cross-checked with the sshd(8) reference grammar (h/ref/authkeysref) and with ssh-keygen -l on every 16th file; ParseAuthorizedKey is called until it fails, every return is located by its rest. known_hosts case likewise (markers, host lists, comments of 0..n words). fuzz case = random bytes and edited blobs/lines into all three parsers. distinct key = (stream, class, key family, outcome)")
+	m.Rule("pool per process = Go-made public keys (ed25519, ecdsa 256/384/521 from seeded scalars, RSA moduli of 1024..16384 bits with e in {3,5,17,257,65537,2^24-1}, DSA-shaped numbers), hand-built sk-ecdsa/sk-ed25519 blobs, ssh-keygen-made keys (ed25519, ecdsa 256/384/521, rsa 1024/2048/3072[/4096], dsa) and certificates over them issued by ssh.Certificate.SignCert and by ssh-keygen -s (user/host, options, 3 CA types). key case = one pool key through ParsePublicKey/Marshal/MarshalAuthorizedKey/ParseAuthorizedKey/Fingerprint*, compared with an independent encoder/decoder (h/ref/sshkeyfmt), ssh-keygen -l (-E sha256|md5) reading the package's output, and ssh-keygen -e -m PKCS8 (numbers via OpenSSL's DER). file case = authorized_keys file of 1..10 generated lines (plain / options with quotes, escaped quotes, commas, blanks, '=' / type mismatch / blank, comment, one token / unterminated quote / bad or truncated base64 / unknown type / single-edit mutants and oddities), outcome known by construction and cross-checked with the sshd(8) reference grammar (h/ref/authkeysref) and with ssh-keygen -l on every 16th (thorough: 64th) file; ParseAuthorizedKey is called until it fails, every return is located by its rest. known_hosts case likewise (markers, host lists, comments of 0..n words). fuzz case = random bytes and edited blobs/lines into all three parsers. distinct key = (stream, class, key family, outcome)")
 	m.Assume("ssh-keygen 9.2 is the format witness; h/ref/sshkeyfmt (own RFC 4253/5656 codec, unit-tested elsewhere) and h/ref/authkeysref (sshd(8) text, unit-tested on the manual's examples) are the references; ssh-keygen-made key material is not determined by the seed (witnesses carry the lines)")
 	m.Assume("readings accepted: ssh-keygen prints a certificate's fingerprint as that of the certified key, the package hashes Marshal() (both accepted for certificates; the certified key's fingerprint is judged); lines outside the sshd(8) grammar (empty option specs, short type names, CR inside a line, known_hosts comments of several words, unknown markers) may be accepted or skipped but must never yield a key the line does not announce")
 
@@ -164,7 +164,7 @@ func TestC38(t *testing.T) {
 	m.Gate("auth_mismatch_lines_rejected", m.N(1000, 50000), "declared type != blob type observed as not returned")
 	m.Gate("auth_crlf_lines", m.N(1000, 50000), "CRLF terminated lines")
 	m.Gate("auth_multiword_comments", m.N(1000, 50000), "comments with inner blanks compared")
-	m.Gate("auth_files_vs_keygen", m.N(200, 12000), "whole files also read by ssh-keygen -l and compared with the construction")
+	m.Gate("auth_files_vs_keygen", m.N(200, 3000), "whole files also read by ssh-keygen -l and compared with the construction")
 	m.Gate("kh_strict_valid_lines", m.N(1500, 60000), "known_hosts lines compared field by field")
 	m.Gate("kh_marker_lines", m.N(300, 12000), "@cert-authority/@revoked lines compared")
 	m.Gate("kh_mismatch_rejected", m.N(300, 12000), "known_hosts declared type != blob type observed as not returned")
@@ -375,7 +375,7 @@ func keyChecks(m *mon.M, p *pool) {
 // ---- authorized_keys files ----------------------------------------------------------------
 
 func authFileCase(m *mon.M, p *pool, i int64, r *rand.Rand) {
-	witness := (i/32)%16 == 0 // blocks of 32 consecutive cases: spread evenly over 8 or 16 batches
+	witness := (i/32)%int64(m.N(16, 64)) == 0 // blocks of 32 consecutive cases: spread evenly over 8 or 16 batches
 	n := 1 + r.IntN(10)
 	ls := make([]lineSpec, n)
 	for j := range ls {
